@@ -25,6 +25,18 @@ static DONE: AtomicU64 = AtomicU64::new(0);
 static READER_PLUS: AtomicU64 = AtomicU64::new(0);
 static READER_MINUS: AtomicU64 = AtomicU64::new(0);
 static DEQUEUED: std::sync::Mutex<Vec<u64>> = std::sync::Mutex::new(Vec::new());
+/// global order of observable moments (stored confirmation counts, client acknowledgements)
+static ORDER: AtomicU64 = AtomicU64::new(0);
+static CONFIRMED: std::sync::Mutex<Vec<(u64, u64, u64, u8)>> = std::sync::Mutex::new(Vec::new());
+
+pub fn next_order() -> u64 {
+    ORDER.fetch_add(1, Ordering::SeqCst)
+}
+
+/// (order, transaction id high half, low half without its last byte, count) of every stored confirmation count
+pub fn confirmations_stored() -> Vec<(u64, u64, u64, u8)> {
+    CONFIRMED.lock().unwrap().clone()
+}
 
 #[derive(Clone, Copy, Debug, PartialEq, Eq)]
 pub struct Activity {
@@ -59,6 +71,8 @@ pub fn rebaseline() {
 }
 
 pub fn reset_activity() {
+    ORDER.store(0, Ordering::SeqCst);
+    CONFIRMED.lock().unwrap().clear();
     SENT.store(0, Ordering::SeqCst);
     DONE.store(0, Ordering::SeqCst);
     READER_PLUS.store(0, Ordering::SeqCst);
@@ -87,6 +101,10 @@ impl Sim for ClusterSim {
             }
             "reader:job-" => {
                 READER_MINUS.fetch_add(1, Ordering::SeqCst);
+            }
+            "db:confirmations_set" => {
+                let o = next_order();
+                CONFIRMED.lock().unwrap().push((o, a, b & !0xff, (b & 0xff) as u8));
             }
             _ => {}
         }
